@@ -662,8 +662,10 @@ func exploreProtocol(run *h.Run, prefix string, pc ref.PConfig, alpha []ref.Cmd,
 			}
 			if seen[r.Key] && !r.Closed && mergeAudit[prefix] {
 				// an arrival at a state of an earlier level: keep the largest history of the first level that brings one
-				if old, ok := alts[r.Key]; !ok || (len(old) == len(hist) && lessHist(old, hist)) {
-					alts[r.Key] = hist
+				// (one per kind of the LAST command: a self-loop of MAIL, of BDAT, of AUTH ... may each leave something behind)
+				ak := r.Key + " | last=" + alpha[hist[len(hist)-1]].Op
+				if old, ok := alts[ak]; !ok || (len(old) == len(hist) && lessHist(old, hist)) {
+					alts[ak] = hist
 				}
 				// ... and the largest one of the LAST level that brings one (the longest way into the state)
 				if old, ok := deep[r.Key]; !ok || len(hist) > len(old) || (len(old) == len(hist) && lessHist(old, hist)) {
@@ -685,8 +687,8 @@ func exploreProtocol(run *h.Run, prefix string, pc ref.PConfig, alpha []ref.Cmd,
 			mu.Unlock()
 		})
 		for k, a := range levelAlt {
-			if _, ok := alts[k]; !ok {
-				alts[k] = a
+			if _, ok := alts[k+" | same level"]; !ok {
+				alts[k+" | same level"] = a
 			}
 		}
 		for k, c := range cand {
@@ -734,6 +736,7 @@ func exploreProtocol(run *h.Run, prefix string, pc ref.PConfig, alpha []ref.Cmd,
 		for _, names := range [][]string{
 			{"RCPT b", "BDAT accept-c2 LAST", "MAIL ok", "RCPT a", "DATA accept-d1", "NOOP"},
 			{"MAIL size at the limit", "MAIL ok", "RCPT a", "BDAT accept-c1", "RSET", "AUTH ok", "MAIL ok", "RCPT b", "DATA reject-d2", "NOOP"},
+			{"BDAT malformed size", "NOOP", "BDAT bad LAST token", "NOOP", "RCPT a", "RCPT b", "RCPT a", "NOOP"},
 		} {
 			var p []int
 			for _, n := range names {
@@ -748,11 +751,8 @@ func exploreProtocol(run *h.Run, prefix string, pc ref.PConfig, alpha []ref.Cmd,
 			keys = append(keys, k)
 		}
 		for k, d := range deep {
-			// the longest way into the state, unless it is the same history
-			if a, ok := alts[k]; !ok || len(a) != len(d) || lessHist(a, d) {
-				alts[k+" (deep)"] = d
-				keys = append(keys, k+" (deep)")
-			}
+			alts[k+" | deep"] = d
+			keys = append(keys, k+" | deep")
 		}
 		sort.Strings(keys)
 		var audited atomic.Int64
